@@ -88,7 +88,7 @@ func (w *WideQ) opts() Opts { return Opts{Wrapped: w.Wrapped} }
 
 var wideConstructs = []string{"filter", "case", "in-list", "between", "fn-args", "group", "group-having", "group-by-expr", "whole-agg", "join", "left-join", "parallel-join",
 	"hash-join", "cte", "cte-twice", "derived", "sel-sub", "sel-sub-root", "in-sub", "exists", "not-exists", "union", "union-all", "order-limit", "distinct", "nested-from", "star-sub", "like-is", "join-derived", "cte-join", "in-sub-root", "exists-outer", "having-agg",
-	"join-on-fn", "join-on-fn", "join-unaliased", "join-unaliased", "derived-cte", "join-derived-cte", "in-sub-cte", "sel-sub-cte", "exists-cte", "cte-union", "cte-nested"}
+	"join-on-fn", "join-on-fn", "join-unaliased", "join-unaliased", "derived-cte", "join-derived-cte", "in-sub-cte", "sel-sub-cte", "exists-cte", "cte-union", "cte-nested", "selector-item", "selector-item"}
 
 func genWide(t *rapid.T, only []string) *WideQ {
 	doc, sc := genC07Doc(t)
@@ -237,6 +237,43 @@ func genWideOn(t *rapid.T, doc map[string]any, sc *c07Schema, only []string) *Wi
 		w.Tpl = fmt.Sprintf("WITH a AS (SELECT {F@cte-body:%s} AS u FROM {T}%s) SELECT u FROM a UNION ALL SELECT {F@union-branch:%s} AS u FROM {T2}", k, optWhere("w", ""), c2)
 	case "cte-nested":
 		w.Tpl = fmt.Sprintf("WITH a AS (WITH b AS (SELECT %s, {F@inner-cte-body:%s} AS w FROM {T}) SELECT %s, w FROM b WHERE w %s %s) SELECT * FROM a", k, v, k, op("op"), num("c"))
+	case "selector-item":
+		// every row carries a small matrix that select items and conditions read through
+		// multi-dimensional bracket selectors (index / each / range per dimension, keep=>)
+		rows, _ := doc["t"].([]any)
+		for r, row := range rows {
+			rm, ok := row.(map[string]any)
+			if !ok {
+				continue
+			}
+			nr := rapid.IntRange(2, 3).Draw(t, fmt.Sprintf("mx%d.rows", r))
+			mx := []any{}
+			for i := 0; i < nr; i++ {
+				nc := rapid.SampledFrom([]int{3, 3, 2, 4, 3, 3, 1, 0}).Draw(t, fmt.Sprintf("mx%d.r%d.cols", r, i))
+				in := []any{}
+				for j := 0; j < nc; j++ {
+					in = append(in, fmt.Sprintf("%c%d", 'a'+i, j))
+				}
+				mx = append(mx, in)
+			}
+			rm["mx"] = mx
+		}
+		sel := func(l string) string {
+			n := rapid.IntRange(1, 2).Draw(t, l+".ndims")
+			var dims []string
+			for i := 0; i < n; i++ {
+				dims = append(dims, rapid.SampledFrom([]string{"each", "each", "0", "1", "(0:1)", "(1:2)", "(0:2)", "(begin:1)", "(1:end)", "(0:0)"}).Draw(t, fmt.Sprintf("%s.d%d", l, i)))
+			}
+			return "`mx[" + rapid.SampledFrom([]string{"", "", "keep=>"}).Draw(t, l+".keep") + strings.Join(dims, rapid.SampledFrom([]string{",", ":", ", "}).Draw(t, l+".sep")) + "]`"
+		}
+		w.Tpl = fmt.Sprintf("SELECT {F@select-item:%s} AS a1, %s AS g", k, sel("s1"))
+		if rapid.Bool().Draw(t, "unwind") {
+			w.Tpl += fmt.Sprintf(", UNWIND(%s) AS u", sel("s2"))
+		}
+		w.Tpl += " FROM {T}"
+		if rapid.Bool().Draw(t, "where") {
+			w.Tpl += fmt.Sprintf(" WHERE FIRST(%s) = %s", sel("s3"), rapid.SampledFrom([]string{"'a0'", "'a1'", "'b0'"}).Draw(t, "first"))
+		}
 	case "like-is":
 		w.Tpl = fmt.Sprintf("SELECT %s, %s FROM {T} WHERE {F@like-operand:%s} LIKE %s OR {F@is-operand:%s} IS NULL OR %s IS NOT NULL", k, s, s, sq.StrLit(rapid.SampledFrom([]string{"a%", "%b", "_", "%"}).Draw(t, "pat")), "nokey", v)
 	}
